@@ -225,6 +225,15 @@ func init() {
 		}
 		return mkStr(filepath.Join(parts...))
 	})
+	N("path/filepath.Clean", func(e *Exec, _ *frame, a []Value) Value {
+		return mkStr(filepath.Clean(e.needStr(a[0], "filepath.Clean")))
+	})
+	N("path/filepath.IsAbs", func(e *Exec, _ *frame, a []Value) Value {
+		return filepath.IsAbs(e.needStr(a[0], "filepath.IsAbs"))
+	})
+	N("path/filepath.Ext", func(e *Exec, _ *frame, a []Value) Value {
+		return mkStr(filepath.Ext(e.needStr(a[0], "filepath.Ext")))
+	})
 	N("path/filepath.Base", func(e *Exec, _ *frame, a []Value) Value {
 		return mkStr(filepath.Base(e.needStr(a[0], "filepath.Base")))
 	})
